@@ -20,5 +20,7 @@ _TB_UNUSED = "Trusted: Lean kernel; axioms propext/Classical.choice/Quot.sound o
 
 import json as _json, os as _os
 LEVELS = _json.load(open(_os.path.join(_os.path.dirname(_os.path.abspath(__file__)), "levels.json")))
+import props as _props
+LEVELS.update(_props.LEVELS_EXTRA)
 
 NOT_APPLICABLE = {}
